@@ -27,6 +27,8 @@ Next ==
         \/ prog' = Append(prog, Op("scalar", R(Labels), R(Scalars)))
         \/ prog' = Append(prog, Op("point", R(Labels), R(Points)))
         \/ prog' = Append(prog, Op("challenge", R(Labels), ""))
+        \* a message found by search whose next challenge digest lies within 2^240 above ("a") / below ("b") k*r, followed by that challenge
+        \/ prog' = Append(prog, Op("hunt", R(Labels), R({"1a", "1b", "2a", "2b", "4b", "8a", "8b"})))
   \/ /\ Len(prog) = Depth
      /\ LET full == Append(prog, Op("challenge", R(Labels), ""))
             pos  == R(1 .. Len(full))
